@@ -126,6 +126,11 @@ def check(ix, rep):
                              'reference `req.value` is looked up under a key that is never there (and a default then decides the direction): an input read through a field '
                              'becomes an output' % (ast.unparse(src)[:60], name_arg), call.lineno)
     rep.floor('Variable constructions in the parser', npv, 1)
+    # the sixteen interface-aware monitors are separate objects: nothing hands one interpreter to two specifications
+    from sa.rules import globals as _G
+    _G.fixture_selfcheck(rep)
+    ngl = _G.run_global(ix, rep, prefix='rtamt.semantics.iastl') + _G.run_global(ix, rep, prefix='rtamt.spec')
+    rep.floor('interface-aware and specification modules scanned for shared objects', ngl, 20)
     nt = iastl.check_standard_taint(ix, rep)
     rep.floor('functions scanned for io reads under STANDARD', nt, 300)
     # compression consistency of dense loops (a dropped verdict sample changes the substituted +-inf)
